@@ -184,7 +184,7 @@ void mm_free(struct mmgr *mm);
 void mm_reinit(struct mmgr *mm, int cfg); /* init_mb_mgr_X on the same memory, model reset */
 void mm_init_arch(IMB_MGR *m, int arch);  /* monitored init call */
 IMB_JOB *mm_get_next_job(struct mmgr *mm);
-/* expect_err: 0 valid job expected; >0 that errno expected; -1 some error expected; -2 unknown */
+/* expect_err: 0 valid job expected; >0 that errno expected; -1 some error expected; -2 unknown; -3 accepted (errno 0), any final status */
 IMB_JOB *mm_submit_job(struct mmgr *mm, int nocheck, int expect_err);
 IMB_JOB *mm_get_completed_job(struct mmgr *mm);
 IMB_JOB *mm_flush_job(struct mmgr *mm);
@@ -313,6 +313,7 @@ int item_is_parking(const struct item *it, int variant);
 const char *item_fault_suite(const struct item *it, const char *kind);
 extern int g_custom_trace[8];
 extern int g_custom_ntrace;
+extern __thread int g_custom_fail;
 int imbv_custom_cipher(IMB_JOB *job);
 int imbv_custom_hash(IMB_JOB *job);
 int item_permitted_tag_lens(IMB_HASH_ALG h, int *l);
